@@ -481,7 +481,12 @@ pub fn tx_monitors(h: &Hist, ms: &mut MonState, b: &Obs, line: &str, res: &str, 
                 }
             }
         }
-        let farm_closed = b.farms.iter().any(|f| !a.farms.iter().any(|g| g.identifier == f.identifier));
+        // a farm of the before-state that is gone, or whose identifier now names a different farm (an expired
+        // farm closed by this very create_farm, whose id may be reused), involves refunds to third parties
+        let farm_closed = b.farms.iter().any(|f| match a.farms.iter().find(|g| g.identifier == f.identifier) {
+            None => true,
+            Some(g) => g.owner != f.owner || g.start_epoch != f.start_epoch || g.farm_asset.denom != f.farm_asset.denom || g.claimed_amount < f.claimed_amount,
+        });
         if ok && tx.kind == "createfarm" && !farm_closed {
             // what the creator paid, what the fee collector and the farm manager received
             let fee = h.w.app.wrap().query_wasm_smart::<mantra_dex_std::farm_manager::Config>(h.w.a("fm"), &mantra_dex_std::farm_manager::QueryMsg::Config {}).map(|c| c.create_farm_fee).ok();
